@@ -62,7 +62,7 @@ noncomputable def evalSeq (F : ℝ → ℝ) (q₀ q₁ : Noise) (tcr pcr : ℝ) 
 
 theorem handoff_CNOT (F : ℝ → ℝ) (phi_c phi_t t p2 pc pt T1c T2c T1t T2t : ℝ) (w : CNOT.Samples) :
     CNOT.construct F phi_c phi_t t p2 pc pt T1c T2c T1t T2t w =
-      evalSeq F ⟨pc, T1c, T2c⟩ ⟨pt, T1t, T2t⟩ (CNOT.t_cr t) (CNOT.p_cr p2 pc pt)
+      evalSeq F ⟨pc, T1c, T2c⟩ ⟨pt, T1t, T2t⟩ (CNOT.t_cr t) (CNOT.p_cr_1 p2 pc pt)
         [.cr (-Real.pi / 4) (-phi_t) w.first_cr,
          .pair (.x (-phi_c + Real.pi / 2) w.x_gate) (.idle CNOT.tg w.relaxation_gate),
          .cr (Real.pi / 4) (-phi_t) w.second_cr,
@@ -72,7 +72,7 @@ theorem handoff_CNOT (F : ℝ → ℝ) (phi_c phi_t t p2 pc pt T1c T2c T1t T2t :
 /-- reversed CNOT: the **target** occupies slot 0, the control slot 1 -/
 theorem handoff_CNOT_inv (F : ℝ → ℝ) (phi_c phi_t t p2 pc pt T1c T2c T1t T2t : ℝ) (w : CNOTInv.Samples) :
     CNOTInv.construct F phi_c phi_t t p2 pc pt T1c T2c T1t T2t w =
-      evalSeq F ⟨pt, T1t, T2t⟩ ⟨pc, T1c, T2c⟩ (CNOTInv.t_cr t) (CNOTInv.p_cr p2 pc pt)
+      evalSeq F ⟨pt, T1t, T2t⟩ ⟨pc, T1c, T2c⟩ (CNOTInv.t_cr t) (CNOTInv.p_cr_1 p2 pc pt)
         [.pair (.rot (-Real.pi / 2) (-phi_t - Real.pi / 2 + Real.pi / 2) w.Ry)
                (.sx (-phi_c - Real.pi - Real.pi / 2) w.first_sx_gate),
          .cr (-Real.pi / 4) (-phi_c - Real.pi) w.first_cr,
@@ -84,7 +84,7 @@ theorem handoff_CNOT_inv (F : ℝ → ℝ) (phi_c phi_t t p2 pc pt T1c T2c T1t T
 
 theorem handoff_ECR (F : ℝ → ℝ) (phi_c phi_t t p2 pc pt T1c T2c T1t T2t : ℝ) (w : ECR.Samples) :
     ECR.construct F phi_c phi_t t p2 pc pt T1c T2c T1t T2t w =
-      evalSeq F ⟨pc, T1c, T2c⟩ ⟨pt, T1t, T2t⟩ (ECR.t_cr t) (ECR.p_cr p2 pc pt)
+      evalSeq F ⟨pc, T1c, T2c⟩ ⟨pt, T1t, T2t⟩ (ECR.t_cr t) (ECR.p_cr_1 p2 pc pt)
         [.cr (Real.pi / 4) (Real.pi - phi_t) w.first_cr,
          .pair (.scaled (-Complex.I) (.x (Real.pi - phi_c) w.x_gate)) (.idle ECR.tg w.relaxation_gate),
          .cr (-Real.pi / 4) (Real.pi - phi_t) w.second_cr] := by
@@ -92,7 +92,7 @@ theorem handoff_ECR (F : ℝ → ℝ) (phi_c phi_t t p2 pc pt T1c T2c T1t T2t : 
 
 theorem handoff_ECR_inv (F : ℝ → ℝ) (phi_c phi_t t p2 pc pt T1c T2c T1t T2t : ℝ) (w : ECRInv.Samples) :
     ECRInv.construct F phi_c phi_t t p2 pc pt T1c T2c T1t T2t w =
-      Complex.I • evalSeq F ⟨pc, T1c, T2c⟩ ⟨pt, T1t, T2t⟩ (ECRInv.t_cr t) (ECRInv.p_cr p2 pc pt)
+      Complex.I • evalSeq F ⟨pc, T1c, T2c⟩ ⟨pt, T1t, T2t⟩ (ECRInv.t_cr t) (ECRInv.p_cr_1 p2 pc pt)
         [.pair (.sx (-Real.pi / 2 - phi_c) w.sx_gate_ctr_1) (.sx (-Real.pi / 2 - phi_t) w.sx_gate_trg_1),
          .cr (Real.pi / 4) (Real.pi - phi_t) w.first_cr,
          .pair (.scaled (-Complex.I) (.x (Real.pi - phi_c) w.x_gate)) (.idle ECRInv.tg w.relaxation_gate),
@@ -105,12 +105,32 @@ theorem handoff_ECR_inv (F : ℝ → ℝ) (phi_c phi_t t p2 pc pt T1c T2c T1t T2
 
 /-- the CR error handed to both CR pulses is a function of the three error probabilities only and
 vanishes when they vanish (it does not see `T1`, `T2`, phases or durations) -/
-theorem pcr_zero : CNOT.p_cr 0 0 0 = 0 ∧ CNOTInv.p_cr 0 0 0 = 0 ∧ ECR.p_cr 0 0 0 = 0 ∧ ECRInv.p_cr 0 0 0 = 0 := by
-  refine ⟨?_, ?_, ?_, ?_⟩ <;> simp [CNOT.p_cr, CNOTInv.p_cr, ECR.p_cr, ECRInv.p_cr]
+theorem pcr_zero : CNOT.p_cr_1 0 0 0 = 0 ∧ CNOTInv.p_cr_1 0 0 0 = 0 ∧ ECR.p_cr_1 0 0 0 = 0 ∧ ECRInv.p_cr_1 0 0 0 = 0 := by
+  refine ⟨?_, ?_, ?_, ?_⟩ <;>
+    simp [CNOT.p_cr_1, CNOTInv.p_cr_1, ECR.p_cr_1, ECRInv.p_cr_1, CNOT.p_cr, CNOTInv.p_cr, ECR.p_cr, ECRInv.p_cr]
+
+/-- the error handed to the CR pulses is the derived value `p_cr` where that is non-negative and `0` otherwise (repair of R2:
+on the pinned tree the negative value went under a square root) -/
+theorem pcr_clamped (p2 pc pt : ℝ) :
+    CNOT.p_cr_1 p2 pc pt = max (CNOT.p_cr p2 pc pt) 0 ∧ CNOTInv.p_cr_1 p2 pc pt = max (CNOTInv.p_cr p2 pc pt) 0 ∧
+    ECR.p_cr_1 p2 pc pt = max (ECR.p_cr p2 pc pt) 0 ∧ ECRInv.p_cr_1 p2 pc pt = max (ECRInv.p_cr p2 pc pt) 0 := by
+  refine ⟨?_, ?_, ?_, ?_⟩
+  · unfold CNOT.p_cr_1; split_ifs with h
+    · exact (max_eq_right (le_of_lt h)).symm
+    · exact (max_eq_left (not_lt.mp h)).symm
+  · unfold CNOTInv.p_cr_1; split_ifs with h
+    · exact (max_eq_right (le_of_lt h)).symm
+    · exact (max_eq_left (not_lt.mp h)).symm
+  · unfold ECR.p_cr_1; split_ifs with h
+    · exact (max_eq_right (le_of_lt h)).symm
+    · exact (max_eq_left (not_lt.mp h)).symm
+  · unfold ECRInv.p_cr_1; split_ifs with h
+    · exact (max_eq_right (le_of_lt h)).symm
+    · exact (max_eq_left (not_lt.mp h)).symm
 
 /-- `0 ≤ p_cr` exactly when the two-qubit fidelity does not exceed the product of the single-qubit
-fidelities it is divided by (forward CNOT; probabilities below 4/3).  Outside this region the code
-takes the square root of a negative number (known finding, DESIGN.md R2). -/
+fidelities it is divided by (forward CNOT; probabilities below 4/3).  Outside this region the code uses 0
+(`pcr_clamped`; on the pinned tree it took the square root of a negative number — R2, repaired). -/
 theorem pcr_nonneg_iff (p2 pc pt : ℝ) (hc : pc < 4 / 3) (ht : pt < 4 / 3) :
     0 ≤ CNOT.p_cr p2 pc pt ↔ (1 - 3 / 4 * p2) ^ 2 ≤ (1 - 3 / 4 * pc) ^ 2 * (1 - 3 / 4 * pt) := by
   have hc' : 0 < 1 - 3 / 4 * pc := by linarith
